@@ -681,7 +681,7 @@ def run(ctx):
 
     res = Result()
     rng = ctx.rng('hist')
-    for i in range(ctx.n(12000, 400000)):
+    for i in range(ctx.n(12000, 1600000)):
         case, anomalies = gen_history(rng)
         res.evaluations += 1
         if anomalies:
@@ -693,7 +693,7 @@ def run(ctx):
             break
 
     rng = ctx.rng('conc')
-    for i in range(ctx.n(4000, 100000)):
+    for i in range(ctx.n(4000, 400000)):
         case = gen_concurrent(rng)
         res.evaluations += 1
         res.digests.add(digest(case))
@@ -702,7 +702,7 @@ def run(ctx):
             break
 
     rng = ctx.rng('submit')
-    for i in range(ctx.n(1600, 40000)):
+    for i in range(ctx.n(1600, 160000)):
         case = gen_submit(rng)
         res.evaluations += 1
         run_submit(case, res)
@@ -712,7 +712,7 @@ def run(ctx):
     rng = ctx.rng('cause')
     wd  = os.path.join(ctx.workdir or os.getcwd(), 'agent_sbox')
     os.makedirs(wd, exist_ok=True)
-    for i in range(ctx.n(1600, 40000)):
+    for i in range(ctx.n(1600, 160000)):
         case = gen_cause(rng)
         res.evaluations += 1
         res.digests.add(digest(case))
